@@ -71,6 +71,9 @@ def run(ctx):
     inp = ctx.write_ndjson("behaviours.ndjson", behs)
     gr = ctx.go_test("tsdb", ["c06_truncation_test.go"], "^TestVerifC06Replay$", env={"VERIF_IN": inp}, timeout="40m")
     ctx.absorb(gr, label="C06 replay")
+    if not gr.by_kind("done"):
+        # vlib.absorb tolerates a missing done record when violation records exist (known findings always produce one)
+        raise vlib.Infra("harness C06 replay did not finish (no done record):\n%s" % gr.out[-3000:])
     ctx.assumptions += [
         "bounded model: 1 maintenance thread, 2-3 query threads, 3 samples (in-order low/high, out-of-order), ranges lo/full/hi",
         "Select+drain atomic w.r.t. maintenance steps; ChainedSeriesMerge collapses equal timestamps (duplicates cannot be observed)",
